@@ -17,7 +17,7 @@
 #include <unistd.h>
 #include <float.h>
 #include <limits.h>
-typedef int8_t ring_t;
+typedef int8_t ring_t; /* (__CPROVER_bitvector[8] was tried: cbmc 6.11 did not finish 8-bit distributivity in 19 minutes) */
 /* classification macros reject integer operands; on ring values they are constant */
 #undef isfinite
 #define isfinite(x) (1)
